@@ -4,7 +4,8 @@ from vf.gen import pick_weighted
 
 ID = "C20"
 THEOREMS = ["C20_inv", "C20_alias_refuted", "C20_inv_partial", "C20_deepcopy_restores",
-            "C20_ext_inv", "C20_ext_stale_refuted", "C20_ext_inv_partial"]
+            "C20_ext_inv", "C20_ext_stale_refuted", "C20_ext_inv_partial",
+            "C20_trace_quiet_loud", "C20_ext_trace_quiet_loud"]
 MODEL_FILES = ["IndexCache.v", "IndexCacheExt.v"]
 DEEP = True      # what copyIndex copies in the tree under test (True after "fix: copy the entries in copyIndex")
 FIXED = True     # SetIndex caches an index without extension pointers (True after "fix: SetIndex caches an index without ...")
@@ -15,7 +16,7 @@ MODELLED = ("storage/filesystem/index.go: IndexStorage.Index, SetIndex, copyInde
             "(Model/IndexCacheExt.v: an Index abstracted to 'reports extension data'); not modelled: the worktree operations themselves (exercised with injected faults by suite porc), partial writes of the index file")
 TRUSTED = [
     "C-impl: harness/cmd/c20 kind store (filesystem.Storage over memfs; handles are the *index.Index values returned by Index()) vs "
-    "Model/IndexCache.trace on every case",
+    "Model/IndexCache.trace_q on every case (trace with the harness's observing Index() omitted after quiet steps)",
     "harness/cmd/c20/faultfs.go: billy.Filesystem wrapper failing the k-th filesystem / file call (worktree and .git share the counter)",
 ]
 ASSUMPTIONS = ["every write of .git/index (SetIndex or external) changes its (mtime, size) key: the harness makes external rewrites unique in size "
@@ -23,12 +24,15 @@ ASSUMPTIONS = ["every write of .git/index (SetIndex or external) changes its (mt
 RULE = ("store: 3-14 operations over {Index, write through a returned entry, replace/append/remove in a returned slice, clear the extension "
         "pointers of a handle, SetIndex, external rewrite with or without a TREE extension, external delete} with up to 4 live handles; porc: two commits, then 3-9 of {write, delete, add, add -A, remove, move, commit, "
         "status, reset hard/mixed/merge, checkout, external rewrite} with a failure injected at the k-th filesystem call (k swept 1..120); "
+        "quiet steps (flag q: the harness does not read the index after them) make the history's own next Index() the first reader after an external "
+        "rewrite (a cache MISS): store buckets store-miss [warm; external q; Index(); modify the returned value; no SetIndex; Index()] and store-quiet, "
+        "porc bucket porc-miss (every faulted worktree operation runs right after a quiet external rewrite); "
         "non-trivial = at least one write through a handle (store) / one injected fault or external rewrite (porc)")
 
 H = lambda b: b.hex()
 
 
-def gen_store(rng):
+def gen_store(rng, quiet=False):
     ops = []
     nh = 0
     fresh = [100]
@@ -68,7 +72,68 @@ def gen_store(rng):
             ops.append({"op": "drop", "h": h})
         else:
             ops.append({"op": "extdelete"})
-    return {"bucket": "store", "kind": "store", "ops": ops}
+    bucket = "store"
+    if quiet:
+        # quiet steps: the harness does not read the index after them, so the history's own next Index() meets the cache
+        # as the operation left it (after an external rewrite: a MISS whose result the history then holds and modifies)
+        bucket = "store-quiet"
+        for o in ops[:-1]:
+            if rng.random() < (0.75 if o["op"] in ("external", "extdelete") else 0.3):
+                o["q"] = True
+    return {"bucket": bucket, "kind": "store", "ops": ops}
+
+
+def gen_miss(rng):
+    """[warm the cache; external rewrite (unobserved); Index() = MISS; modify the returned value; no SetIndex; Index()]"""
+    fresh = [100]
+
+    def newname():
+        fresh[0] += 1
+        return fresh[0]
+
+    def ents(lo):
+        e = [[newname(), rng.randrange(1, 200)] for _ in range(rng.randrange(lo, 5))]
+        rng.shuffle(e)
+        return e
+    ops = []
+    nh = 0
+    warm = rng.randrange(0, 4)          # 0: cold cache (cache == nil branch of the miss), 1: warm by observation, 2: by Index(), 3: by SetIndex
+    if warm:
+        ops.append({"op": "external", "entries": ents(0), "ext": rng.random() < 0.5})
+        if warm >= 2:
+            ops.append({"op": "index"})
+            nh += 1
+        if warm == 3:
+            ops.append({"op": "append", "h": 0, "n": newname(), "v": rng.randrange(600, 800)})
+            ops.append({"op": "setindex", "h": 0})
+    for rnd in range(rng.randrange(1, 3)):
+        if rng.random() < 0.15 and nh:
+            ops.append({"op": "extdelete", "q": True})
+        ops.append({"op": "external", "entries": ents(1), "ext": rng.random() < 0.5, "q": True})
+        ops.append({"op": "index", "q": rng.random() < 0.5})       # the MISS
+        h = nh
+        nh += 1
+        for _ in range(rng.randrange(1, 4)):
+            k = pick_weighted(rng, [(4, "mutate"), (2, "replace"), (2, "append"), (2, "remove"), (1, "drop")])
+            q = rng.random() < 0.3
+            if k == "mutate":
+                o = {"op": "mutate", "h": h, "k": rng.randrange(0, 3), "v": rng.randrange(200, 400)}
+            elif k == "replace":
+                o = {"op": "replace", "h": h, "k": rng.randrange(0, 3), "n": newname(), "v": rng.randrange(400, 600)}
+            elif k == "append":
+                o = {"op": "append", "h": h, "n": newname(), "v": rng.randrange(600, 800)}
+            elif k == "remove":
+                o = {"op": "remove", "h": h, "k": rng.randrange(0, 3)}
+            else:
+                o = {"op": "drop", "h": h}
+            if q:
+                o["q"] = True
+            ops.append(o)
+        ops.append({"op": "index"})                                 # no SetIndex: the operation "failed"; read again
+        nh += 1
+        if rng.random() < 0.3:
+            ops.append({"op": "setindex", "h": rng.randrange(nh)})
+    return {"bucket": "store-miss", "kind": "store", "ops": ops}
 
 
 def coq_val(n, v):
@@ -138,17 +203,28 @@ class Store(Suite):
     thorough_n = 5000
 
     def gen(self, rng, n, tier):
-        return [gen_store(rng) for _ in range(n)]
+        cases = []
+        for i in range(n):
+            if i % 5 == 3:
+                cases.append(gen_miss(rng))
+            elif i % 5 == 4:
+                cases.append(gen_store(rng, quiet=True))
+            else:
+                cases.append(gen_store(rng))
+        return cases
 
     def model_expr(self, c):
-        return "OList [c20_store %s %s; c20_ext %s %s]" % (coq_bool(DEEP), coq_list([coq_op(o) for o in c["ops"]]),
-                                                           coq_bool(FIXED), coq_list([coq_eop(o) for o in c["ops"]]))
+        q = lambda o: coq_bool(bool(o.get("q")))
+        return "OList [c20_store_q %s %s; c20_ext_q %s %s]" % (
+            coq_bool(DEEP), coq_list(["(%s, %s)" % (q(o), coq_op(o)) for o in c["ops"]]),
+            coq_bool(FIXED), coq_list(["(%s, %s)" % (q(o), coq_eop(o)) for o in c["ops"]]))
 
     def nontrivial(self, c):
         return any(o["op"] == "mutate" for o in c["ops"])
 
     def oracle(self, ctx, cases, impl, model):
-        """the property itself: after every operation Index() returns what decoding .git/index returns"""
+        """the property itself: after every operation (but the quiet ones, where nothing is read) Index() returns what
+        decoding .git/index returns"""
         fails = {}
         for c in cases:
             r = impl.get(c["id"])
@@ -157,12 +233,16 @@ class Store(Suite):
                 continue
             entries, exts = split_top(r["out"])
             for k, step in enumerate(split_top(entries)):
+                if step == "quiet" and c["ops"][k].get("q"):
+                    continue
                 vd = split_top(step)
                 if len(vd) != 2 or vd[0] != vd[1]:
                     fails[c["id"]] = "after operation %d (%s): Index() returns %s, the file holds %s" % (k, c["ops"][k]["op"], vd[0][:200], vd[-1][:200])
                     break
             else:
                 for k, step in enumerate(split_top(exts)):
+                    if step == "quiet" and c["ops"][k].get("q"):
+                        continue
                     vd = split_top(step)
                     if len(vd) != 2 or vd[0] != vd[1]:
                         fails[c["id"]] = "after operation %d (%s): extensions: Index() reports %s, the file has %s" % (k, c["ops"][k]["op"], vd[0], vd[-1])
@@ -180,30 +260,38 @@ class Store(Suite):
 FILES = [b"a.txt", b"d/b.txt", b"d/c.txt", b"d/e/f.txt", b"g.txt", b"h/i.txt"]
 
 
-def gen_porc(rng, k_fault=None):
-    files = [[H(n), H(b"one:" + n)] for n in FILES if rng.random() < 0.85]
+def gen_porc(rng, k_fault=None, miss=False):
+    """miss: every faulted operation runs IMMEDIATELY after an unobserved (quiet) external rewrite of .git/index, so the Index()
+    inside the operation is a cache miss and the operation modifies (and, failing, abandons) what that miss returned"""
+    files = [[H(n), H(b"one:" + n)] for n in FILES if miss or rng.random() < 0.85]
     files2 = [[n, H(b"two::" + bytes.fromhex(n))] for n, _ in files if rng.random() < 0.4]
     names = [bytes.fromhex(n) for n, _ in files] or [b"a.txt"]
     ops = []
     w = 0
-    for _ in range(rng.randrange(3, 10)):
-        k = pick_weighted(rng, [(4, "edit+add"), (2, "adddir"), (1, "addall"), (1, "remove"), (1, "move"), (1, "commit"), (1, "status"),
+
+    def arm(fault, kk):
+        if miss or rng.random() < 0.25:
+            ops.append({"op": "external", "how": rng.choice(["add", "add", "drop", "hash", "tree"]), "v": rng.randrange(1, 60000), "q": True})
+        if fault:
+            ops.append({"op": "fault", "k": kk})
+    for _ in range(rng.randrange(2, 6) if miss else rng.randrange(3, 10)):
+        k = pick_weighted(rng, [(4, "edit+add"), (5 if miss else 2, "adddir"), (3 if miss else 1, "addall"), (1, "remove"), (1, "move"), (1, "commit"), (1, "status"),
                                 (2, "reset"), (1, "checkout"), (2, "external"), (1, "delete+add")])
-        fault = rng.random() < 0.6
-        kk = k_fault if k_fault is not None else rng.randrange(1, 120)
+        fault = rng.random() < (0.85 if miss else 0.6)
+        kk = k_fault if k_fault is not None else rng.randrange(1, 140 if miss else 120)   # Add reaches its first in-memory staging after ~80 calls
+        if miss and k == "external":
+            k = "adddir"
         if k == "edit+add":
             for nm in rng.sample(names, min(len(names), rng.randrange(1, 3))):
                 w += 1
                 ops.append({"op": "write", "name": H(nm), "content": H(b"edit%d:" % w + nm + b"!" * w)})
-            if fault:
-                ops.append({"op": "fault", "k": kk})
+            arm(fault, kk)
             ops.append({"op": "add", "name": H(rng.choice(names))})
         elif k == "adddir":
             for nm in [x for x in names if x.startswith(b"d/")]:
                 w += 1
                 ops.append({"op": "write", "name": H(nm), "content": H(b"dir%d:" % w + nm + b"#" * w)})
-            if fault:
-                ops.append({"op": "fault", "k": kk})
+            arm(fault, kk)
             ops.append({"op": "add", "name": H(b"d")})
         elif k == "addall":
             for nm in rng.sample(names, min(len(names), 2)):
@@ -211,43 +299,35 @@ def gen_porc(rng, k_fault=None):
                 ops.append({"op": "write", "name": H(nm), "content": H(b"all%d:" % w + nm + b"%" * w)})
             w += 1
             ops.append({"op": "write", "name": H(b"new%d.txt" % w), "content": H(b"new file %d" % w)})
-            if fault:
-                ops.append({"op": "fault", "k": kk})
+            arm(fault, kk)
             ops.append({"op": "addall"})
         elif k == "delete+add":
             nm = rng.choice(names)
             ops.append({"op": "delete", "name": H(nm)})
-            if fault:
-                ops.append({"op": "fault", "k": kk})
+            arm(fault, kk)
             ops.append({"op": "add", "name": H(nm)})
         elif k == "remove":
-            if fault:
-                ops.append({"op": "fault", "k": kk})
+            arm(fault, kk)
             ops.append({"op": "remove", "name": H(rng.choice(names + [b"d"]))})
         elif k == "move":
-            if fault:
-                ops.append({"op": "fault", "k": kk})
+            arm(fault, kk)
             w += 1
             ops.append({"op": "move", "name": H(rng.choice(names)), "to": H(b"moved%d.txt" % w)})
         elif k == "commit":
-            if fault:
-                ops.append({"op": "fault", "k": kk})
+            arm(fault, kk)
             ops.append({"op": "commit"})
         elif k == "status":
-            if fault:
-                ops.append({"op": "fault", "k": kk})
+            arm(fault, kk)
             ops.append({"op": "status"})
         elif k == "reset":
-            if fault:
-                ops.append({"op": "fault", "k": kk})
+            arm(fault, kk)
             ops.append({"op": "reset", "mode": rng.choice(["hard", "mixed", "merge"]), "first": rng.random() < 0.6})
         elif k == "checkout":
-            if fault:
-                ops.append({"op": "fault", "k": kk})
+            arm(fault, kk)
             ops.append({"op": "checkout", "force": rng.random() < 0.7})
         else:
             ops.append({"op": "external", "how": rng.choice(["add", "drop", "hash", "tree"]), "v": rng.randrange(1, 60000)})
-    return {"bucket": "porc", "kind": "porc", "files": files, "files2": files2, "ops": ops}
+    return {"bucket": "porc-miss" if miss else "porc", "kind": "porc", "files": files, "files2": files2, "ops": ops}
 
 
 class Porc(Suite):
@@ -258,10 +338,12 @@ class Porc(Suite):
     thorough_n = 3000
 
     def gen(self, rng, n, tier):
-        cases = [gen_porc(rng) for _ in range(n)]
+        cases = [gen_porc(rng, miss=(i % 4 == 3)) for i in range(n)]
         if tier == "thorough":            # every k for a fixed family of histories
             for k in range(1, 121):
                 cases.append(gen_porc(rng, k))
+            for k in range(1, 141):       # ... and with every faulted operation right after an external rewrite
+                cases.append(gen_porc(rng, k, miss=True))
         return cases
 
     def model_expr(self, c):
@@ -285,12 +367,19 @@ class Porc(Suite):
             for k, e in enumerate(log):
                 stats["ops_failed"] += bool(e["err"])
                 stats["both_fail"] += e["eq"] == "both_fail"
+                if e["eq"] == "quiet" and c["ops"][self._opidx(c, k)].get("q"):
+                    continue
                 if e["eq"] not in ("equal", "both_fail"):
                     fails[c["id"]] = "after %s (step %d, error %r): %s: %s" % (e["op"], k, e["err"][:80], e["eq"], e["detail"][:300])
                     self._cls[c["id"]] = {"entries_differ": "shallow-copy-alias", "extensions_differ": "stale-extensions"}.get(e["eq"])
                     break
         self.stats = stats
         return fails
+
+    @staticmethod
+    def _opidx(c, k):
+        """index in c["ops"] of the k-th log entry (fault ops are not logged)"""
+        return [i for i, o in enumerate(c["ops"]) if o["op"] != "fault"][k]
 
     def finding_class(self, case, reason, reply):
         return getattr(self, "_cls", {}).get(case["id"])
